@@ -1,5 +1,5 @@
 """C02 - canonicalisation never changes what a URL means."""
-from ..rules.kindrules import k1, k2_k3, k_mix, k_req, make_kinds
+from ..rules.kindrules import k1, k2_k3, k_mix, k_req, k_roundtrip, make_kinds
 from ..rules import queryvar
 from .C12 import roles
 from .common import quoter_audits, table_checks
@@ -21,5 +21,6 @@ def run(ctx):
     k2_k3(ctx, K)
     k_req(ctx, K)
     k_mix(ctx, K)
+    k_roundtrip(ctx, K)
     queryvar.pair_quoting(ctx, roles(ctx.model))    # every key and value keeps its delimiter status: quoted exactly once
     k1(ctx, K, only={"_url.URL.join", "_url.URL.with_name", "_url.URL.with_suffix", "_url.URL._with_raw_name", "_url.URL._make_child", "_url.URL.parent"})
